@@ -45,7 +45,7 @@ PrNone == 9
 Tri(b) == IF b THEN "T" ELSE "F"
 NotNoneOr(a, b) == IF a # "N" THEN a ELSE b
 
-ListKinds == {"list", "append", "extend", "path", "stream"}
+ListKinds == {"list", "append", "extend", "path", "stream", "rec"}      \* ("rec": RecurseNode, a list of file names)
 DictKinds == {"dict", "call", "bind"}
 FnKinds   == {"call", "bind"}
 ComposedKinds == ListKinds \cup DictKinds
@@ -58,7 +58,7 @@ IsPlainComposed(n) == n.k \in {"dict", "list"}
 
 \* class attribute _default_delete (list.py:22, function.py:20, stream.py:20)
 TypeDefaultDelete(n) ==
-    n.k \in ({"list", "append", "extend", "path", "call", "bind"}
+    n.k \in ({"list", "append", "extend", "path", "rec", "call", "bind"}
              \ (IF Mut("ListsMergeByDefault") THEN {"list"} ELSE {}))
 
 NoVal == <<"", "">>
